@@ -13,23 +13,25 @@ fn touch(b: &[u8]) -> usize {
     b.len()
 }
 
-macro_rules! ref_accessors {
-    ($x:expr) => {{
-        let x = $x;
+/// Parsing and the five component accessors, parts(), base(), as_uri().
+fn uriref_noalloc<const N: usize>() {
+    let t = Text::<N>::any();
+    let b = t.bytes();
+    no_alloc_begin();
+    // the real constructor (its generated validate is replaced by the table twin of the same automaton)
+    let r = UriRef::new(b);
+    if let Ok(x) = r {
+        assert!(x.as_bytes().as_ptr() == b.as_ptr() && x.as_bytes().len() == b.len(), "the parsed value does not occupy exactly the caller's input");
         let mut acc = 0usize;
         let p = x.parts();
         acc += touch(p.path.as_bytes());
-        if let Some(a) = x.authority() {
-            let ap = a.parts();
-            acc += touch(ap.host.as_bytes());
-            acc += touch(a.host().as_bytes());
-            if let Some(u) = a.user_info() {
-                acc += touch(u.as_bytes())
-            }
-            if let Some(q) = a.port() {
-                acc += touch(q.as_bytes())
-            }
+        if let Some(s) = x.scheme() {
+            acc += touch(s.as_bytes())
         }
+        if let Some(a) = x.authority() {
+            acc += touch(a.as_bytes())
+        }
+        acc += touch(x.path().as_bytes());
         if let Some(q) = x.query() {
             acc += touch(q.as_bytes())
         }
@@ -37,12 +39,80 @@ macro_rules! ref_accessors {
             acc += touch(f.as_bytes())
         }
         acc += touch(x.base().as_bytes());
-        let path = x.path();
-        acc += path.segment_count();
+        if let Some(u) = x.as_uri() {
+            acc += touch(u.scheme().as_bytes());
+            acc += touch(u.parts().path.as_bytes());
+            acc += touch(u.base().as_bytes());
+        }
+        assert!(acc < 1000);
+        cover!(x.authority().is_some() && x.query().is_some(), "authority and query present");
+    }
+    no_alloc_end();
+    cover!(r.is_err(), "rejected input (error path does not allocate either)");
+}
+
+// @h prop=C20 tier=quick kind=check timeout=2400 mem=16 bound="any byte string <= 8 bytes" encodes="UriRef::new;UriRef::{parts,scheme,authority,path,query,fragment,base,as_uri};Uri::{scheme,parts,base} (allocator entry points -> panic)"
+#[cfg_attr(kani, kani::proof)]
+#[cfg_attr(kani, kani::unwind(11))]
+#[cfg_attr(kani, kani::stub(std::alloc::alloc, crate::stubs::no_alloc))]
+#[cfg_attr(kani, kani::stub(std::alloc::alloc_zeroed, crate::stubs::no_alloc))]
+#[cfg_attr(kani, kani::stub(std::alloc::realloc, crate::stubs::no_realloc))]
+#[cfg_attr(kani, kani::stub(iref_core::uri::UriRef::validate, crate::tables::t_uri_uriref_validate_iter))]
+pub fn c20_uriref_noalloc_n8() {
+    uriref_noalloc::<8>()
+}
+
+/// The authority accessors.
+fn authority_noalloc<const N: usize>() {
+    let t = Text::<N>::any();
+    let b = t.bytes();
+    assume(tables::t_uri_authority_valid_k(b, N));
+    no_alloc_begin();
+    let a = unsafe { uri::Authority::new_unchecked(b) };
+    let mut acc = 0usize;
+    let ap = a.parts();
+    acc += touch(ap.host.as_bytes());
+    acc += touch(a.host().as_bytes());
+    if let Some(u) = a.user_info() {
+        acc += touch(u.as_bytes())
+    }
+    if let Some(q) = a.port() {
+        acc += touch(q.as_bytes())
+    }
+    assert!(acc < 1000);
+    no_alloc_end();
+    cover!(ap.user_info.is_some() && ap.port.is_some(), "user info and port present");
+}
+
+// @h prop=C20 tier=quick kind=check timeout=2400 mem=12 bound="uri::Authority text <= 8 bytes" encodes="uri::Authority::{parts,host,user_info,port} (allocator entry points -> panic)"
+#[cfg_attr(kani, kani::proof)]
+#[cfg_attr(kani, kani::unwind(10))]
+#[cfg_attr(kani, kani::stub(std::alloc::alloc, crate::stubs::no_alloc))]
+#[cfg_attr(kani, kani::stub(std::alloc::alloc_zeroed, crate::stubs::no_alloc))]
+#[cfg_attr(kani, kani::stub(std::alloc::realloc, crate::stubs::no_realloc))]
+pub fn c20_authority_noalloc_n8() {
+    authority_noalloc::<8>()
+}
+
+/// The path queries and the segment iterator.
+fn path_noalloc<const N: usize>() {
+    let t = Text::<N>::any();
+    let b = t.bytes();
+    no_alloc_begin();
+    let r = uri::Path::new(b);
+    if let Ok(path) = r {
+        let mut acc = 0usize;
         let mut it = path.segments();
-        while let Some(s) = it.next_back() {
+        if let Some(s) = it.next() {
             acc += touch(s.as_bytes());
         }
+        if let Some(s) = it.next_back() {
+            acc += touch(s.as_bytes());
+        }
+        if let Some(s) = it.next() {
+            acc += touch(s.as_bytes());
+        }
+        acc += path.segment_count();
         if let Some(s) = path.first() {
             acc += touch(s.as_bytes())
         }
@@ -58,42 +128,20 @@ macro_rules! ref_accessors {
         }
         acc += touch(path.parent_or_empty().as_bytes());
         acc += path.is_empty() as usize + path.is_absolute() as usize;
-        acc
-    }};
-}
-
-fn uriref_noalloc<const N: usize>() {
-    let t = Text::<N>::any();
-    let b = t.bytes();
-    no_alloc_begin();
-    // the real constructor (its generated validate is replaced by the table twin of the same automaton)
-    let r = UriRef::new(b);
-    if let Ok(x) = r {
-        assert!(x.as_bytes().as_ptr() == b.as_ptr() && x.as_bytes().len() == b.len(), "the parsed value does not occupy exactly the caller's input");
-        let mut acc = ref_accessors!(x);
-        if let Some(s) = x.scheme() {
-            acc += touch(s.as_bytes())
-        }
-        if let Some(u) = x.as_uri() {
-            acc += touch(u.scheme().as_bytes());
-            acc += touch(u.parts().path.as_bytes());
-        }
         assert!(acc < 1000);
-        cover!(x.authority().is_some() && x.path().segment_count() >= 2, "authority and two segments");
+        cover!(path.segment_count() >= 3, "three or more segments");
     }
     no_alloc_end();
-    cover!(r.is_err(), "rejected input (error path does not allocate either)");
 }
 
-// @h prop=C20 tier=quick kind=check timeout=2400 bound="any byte string <= 9 bytes" encodes="UriRef::new;every read-only accessor of UriRef/Uri/Authority/Path incl. base(), segments() (allocator entry points -> panic)"
+// @h prop=C20 tier=quick kind=check timeout=2400 mem=12 bound="any byte string <= 6 bytes" encodes="uri::Path::{new,segments (next/next_back),segment_count,first,last,file_name,directory,parent,parent_or_empty,is_empty,is_absolute} (allocator entry points -> panic)"
 #[cfg_attr(kani, kani::proof)]
-#[cfg_attr(kani, kani::unwind(12))]
+#[cfg_attr(kani, kani::unwind(9))]
 #[cfg_attr(kani, kani::stub(std::alloc::alloc, crate::stubs::no_alloc))]
 #[cfg_attr(kani, kani::stub(std::alloc::alloc_zeroed, crate::stubs::no_alloc))]
 #[cfg_attr(kani, kani::stub(std::alloc::realloc, crate::stubs::no_realloc))]
-#[cfg_attr(kani, kani::stub(iref_core::uri::UriRef::validate, crate::tables::t_uri_uriref_validate_iter))]
-pub fn c20_uriref_noalloc_n9() {
-    uriref_noalloc::<9>()
+pub fn c20_path_noalloc_n6() {
+    path_noalloc::<6>()
 }
 
 fn iriref_noalloc<const N: usize>() {
@@ -102,27 +150,43 @@ fn iriref_noalloc<const N: usize>() {
     assume(tables::t_iri_iriref_valid_k(b, N));
     no_alloc_begin();
     let x = unsafe { IriRef::new_unchecked(as_str(b)) };
-    let mut acc = ref_accessors!(x);
+    let mut acc = 0usize;
+    let p = x.parts();
+    acc += touch(p.path.as_bytes());
     if let Some(s) = x.scheme() {
         acc += touch(s.as_bytes())
     }
-    if let Some(u) = x.as_iri() {
-        acc += touch(u.scheme().as_bytes());
-        acc += touch(u.parts().path.as_bytes());
+    if let Some(a) = x.authority() {
+        acc += touch(a.host().as_bytes());
+        acc += touch(a.parts().host.as_bytes());
+    }
+    if let Some(q) = x.query() {
+        acc += touch(q.as_bytes())
+    }
+    if let Some(f) = x.fragment() {
+        acc += touch(f.as_bytes())
+    }
+    acc += touch(x.base().as_bytes());
+    let path = x.path();
+    if let Some(s) = path.file_name() {
+        acc += touch(s.as_bytes())
+    }
+    if let Some(s) = path.parent() {
+        acc += touch(s.as_bytes())
     }
     assert!(acc < 1000);
     no_alloc_end();
-    cover!(x.authority().is_some() && x.path().segment_count() >= 2, "authority and two segments");
+    cover!(x.authority().is_some() && b.len() >= 5 && b[2] >= 0xC2, "authority starting with a multi-byte scalar");
 }
 
-// @h prop=C20 tier=quick kind=check timeout=2400 bound="IriRef text <= 8 bytes (UTF-8)" encodes="every read-only accessor of IriRef/Iri/iri::Authority/iri::Path (allocator entry points -> panic)"
+// @h prop=C20 tier=quick kind=check timeout=2400 mem=16 bound="IriRef text <= 7 bytes (UTF-8)" encodes="IriRef::{parts,scheme,authority,query,fragment,base};iri::Authority::{host,parts};iri::Path::{file_name,parent} (allocator entry points -> panic)"
 #[cfg_attr(kani, kani::proof)]
-#[cfg_attr(kani, kani::unwind(11))]
+#[cfg_attr(kani, kani::unwind(10))]
 #[cfg_attr(kani, kani::stub(std::alloc::alloc, crate::stubs::no_alloc))]
 #[cfg_attr(kani, kani::stub(std::alloc::alloc_zeroed, crate::stubs::no_alloc))]
 #[cfg_attr(kani, kani::stub(std::alloc::realloc, crate::stubs::no_realloc))]
-pub fn c20_iriref_noalloc_n8() {
-    iriref_noalloc::<8>()
+pub fn c20_iriref_noalloc_n7() {
+    iriref_noalloc::<7>()
 }
 
 /// Parsing the small component types with their *real* generated validate.
